@@ -138,4 +138,64 @@ def calcBlockSubsidy (height interval : Int) : Nat :=
   else if q.toNat ≥ 64 then 0           -- shift count ≥ width ⇒ 0
   else Spec.BASE_SUBSIDY >>> q.toNat
 
+/-- `blockNode.workSum` (`initBlockNode`): the parent's sum plus the node's own work. Tip-first chain. -/
+def workSum : List Hdr → Nat
+  | [] => 0
+  | h :: rest => workSum rest + calcWork h.bits
+
+/-- `checkProofOfWork` with the `BFNoPoWCheck` flag as a parameter -/
+def checkProofOfWorkFlags (bits : Nat) (hash : List UInt8) (powLimit : Int) (noPowCheck : Bool) : PowResult :=
+  let target := compactToBig bits
+  if target ≤ 0 then .badTarget
+  else if target > powLimit then .badTarget
+  else if !noPowCheck && decide ((hashToBig hash : Int) > target) then .highHash
+  else .ok
+
+inductive SanityResult | ok | badTarget | highHash | invalidTime | timeTooNew
+  deriving DecidableEq, Repr
+
+/-- `CheckBlockHeaderSanity`: PoW clause, whole-second clause (`nsec` = sub-second part of the
+    header's time stamp), not more than two hours after the adjusted time. -/
+def checkBlockHeaderSanity (bits : Nat) (hash : List UInt8) (powLimit : Int) (noPowCheck : Bool)
+    (sec nsec adjusted : Int) : SanityResult :=
+  match checkProofOfWorkFlags bits hash powLimit noPowCheck with
+  | .badTarget => .badTarget
+  | .highHash => .highHash
+  | .ok =>
+    if nsec ≠ 0 then .invalidTime
+    else if sec > adjusted + Spec.MAX_TIME_OFFSET then .timeTooNew
+    else .ok
+
+inductive CtxResult | ok | badDifficulty | timeTooOld | timeWarp | assert | panic
+  deriving DecidableEq, Repr
+
+/-- `CheckBlockHeaderContext`, difficulty and time-stamp clauses (version and checkpoint clauses are
+    other properties' subject). `chain` is the tip-first history ending in `prevNode`; `h` the new header. -/
+def checkBlockHeaderContext (p : Params) (chain : List Hdr) (h : Hdr) (fastAdd : Bool) : CtxResult :=
+  match chain with
+  | [] => .panic                         -- prevNode.Height() on a nil interface
+  | prev :: _ =>
+    if fastAdd then .ok else
+    match calcNextRequiredDifficulty p chain h.time with
+    | none => .assert
+    | some b =>
+      if h.bits ≠ b then .badDifficulty
+      else if ¬ (h.time > calcPastMedianTime chain) then .timeTooOld
+      else if p.enforceBIP94 && !assertNoTimeWarp (chain.length : Int) p.blocksPerRetarget h.time prev.time
+        then .timeWarp
+      else .ok
+
+/-- the loop of `calcEasiestDifficulty`: `for durationVal > 0 && newTarget < powLimit` -/
+def easiestLoop (adj maxSpan powLimit : Int) : Nat → Int → Int → Int
+  | 0, _, t => t
+  | fuel+1, d, t =>
+    if d > 0 ∧ t < powLimit then easiestLoop adj maxSpan powLimit fuel (d - maxSpan) (t * adj) else t
+
+/-- `BlockChain.calcEasiestDifficulty` (checkpoint-era sanity bound); `duration` in seconds.
+    The Go loop terminates when `maxSpan ≥ 1`; `duration.toNat` iterations then suffice. -/
+def calcEasiestDifficulty (p : Params) (bits : Nat) (duration : Int) : Nat :=
+  if p.reduceMinDiff && decide (duration > p.minDiffReductionTime) then p.powLimitBits else
+  let t := easiestLoop p.adjFactor p.maxSpan p.powLimit duration.toNat duration (compactToBig bits)
+  bigToCompact (if t > p.powLimit then p.powLimit else t)
+
 end BV.C09
